@@ -35,17 +35,42 @@ def dow_of(d):
     return (d + 3) % 7 + 1
 
 
-def all_rules():
+def all_rules(rng=None):
+    """Every rule the factories hand out.  The factories are called in a seeded order (which rule is asked for first must not matter)."""
     from pyoda_time import IsoDayOfWeek
     from pyoda_time.calendars import CalendarWeekRule, WeekYearRules
-    rules = [("iso", WeekYearRules.iso, False, 4, 1)]
+    makers = [("iso", lambda: WeekYearRules.iso, False, 4, 1)]
     for m in range(1, 8):
         for f in range(1, 8):
-            rules.append((f"min{m}-first{f}", WeekYearRules.for_min_days_in_first_week(m, IsoDayOfWeek(f)), False, m, f))
+            makers.append((f"min{m}-first{f}", (lambda m=m, f=f: WeekYearRules.for_min_days_in_first_week(m, IsoDayOfWeek(f))), False, m, f))
     for r in CalendarWeekRule:
         for f in range(1, 8):
-            rules.append((f"bcl-{r.name}-first{f}", WeekYearRules.from_calendar_week_rule(r, IsoDayOfWeek(f)), True, None, f))
-    return rules
+            makers.append((f"bcl-{r.name}-first{f}", (lambda r=r, f=f: WeekYearRules.from_calendar_week_rule(r, IsoDayOfWeek(f))), True, r.name, f))
+    order = list(range(len(makers)))
+    if rng is not None:
+        how = rng.randrange(3)
+        if how == 0: rng.shuffle(order)
+        elif how == 1: order.reverse()          # the BCL-style rules first
+    built = {}
+    for i in order:
+        built[i] = makers[i][1]()
+    return [(makers[i][0], built[i], makers[i][2], makers[i][3], makers[i][4]) for i in range(len(makers))]
+
+
+def model_bcl(ys, d, y, kind, f, depth=0):
+    """(week_year, week) by the published .NET Calendar.GetWeekOfYear algorithm (FirstDay / FirstFullWeek / FirstFourDayWeek), or None at the range edge."""
+    s = ys.start(y)
+    if s is None or depth > 2: return None
+    doy0 = d - s
+    jan1 = (dow_of(d) - doy0) % 7
+    if kind == "FIRST_DAY":
+        return (y, (doy0 + (jan1 - f) % 7) // 7 + 1)
+    full = 7 if kind == "FIRST_FULL_WEEK" else 4
+    offset = (f - jan1) % 7
+    if offset != 0 and offset >= full: offset -= 7
+    day = doy0 - offset
+    if day >= 0: return (y, day // 7 + 1)
+    return model_bcl(ys, s - 1, y - 1, kind, f, depth + 1)
 
 
 class YearStarts:
@@ -101,7 +126,7 @@ def run_rules(ctx, cid, n_years):
     cal = gen.cal_by_id(cid); lo, hi = gen.cal_range(cid)
     ys = YearStarts(cal, cid)
     years = [cal.min_year, cal.min_year + 1, cal.max_year - 1, cal.max_year] + [rng.randint(cal.min_year, cal.max_year) for _ in range(n_years)]
-    rules = all_rules()
+    rules = all_rules(rng)
     for y in years:
         s0 = ys.start(y)
         # also the far end of the last year
@@ -117,6 +142,7 @@ def run_rules(ctx, cid, n_years):
                     case = {"kind": "rule", "cal": cid, "rule": name, "d": d}
                     ctx.ev(); ctx.count("rule_evals")
                     mdl = None if irregular else model_week(ys, d, x.year, m, f)
+                    bcl = model_bcl(ys, d, x.year, m, f) if irregular else None
                     wy = None
                     try:
                         wy = rule.get_week_year(x)
@@ -151,6 +177,9 @@ def run_rules(ctx, cid, n_years):
                         ctx.V("C16:roundtrip", f"{cid} rule {name}: {x!r} -> (wy {wy}, week {w}, {x.day_of_week.name}) -> {back!r}", case, repr(back))
                     if not 1 <= w <= wk:
                         ctx.V("C16:week-range", f"{cid} rule {name}: {x!r} week {w} outside 1..{wk} of week-year {wy}", case, (w, wk))
+                    if bcl is not None: ctx.count("bcl_model_comparisons")
+                    if bcl is not None and (wy, w) != bcl:
+                        ctx.V("C16:bcl-rule-model", f"{cid} rule {name}: {x!r} day {d}: (week-year, week) = ({wy},{w}); the .NET GetWeekOfYear algorithm gives {bcl}", case, (wy, w), bcl)
                     if mdl is not None:
                         if mdl[0] != wy or (mdl[1] is not None and mdl[1] != w) or (mdl[2] is not None and mdl[0] == wy and mdl[2] != wk):
                             ctx.V("C16:regular-rule-model", f"{cid} rule {name}: {x!r} day {d}: (week-year, week, weeks) = ({wy},{w},{wk}); week-1 model gives {mdl}", case, (wy, w, wk), mdl)
@@ -165,6 +194,37 @@ def run_rules(ctx, cid, n_years):
                         if not ok:
                             ctx.V("C16:week-advance", f"{cid} rule {name}: {px!r} is (wy {pwy}, week {pw}) but next day {x!r} ({x.day_of_week.name}) is (wy {wy}, week {w}); first day of week is {f}", case, (wy, w), (pwy, pw))
                     prev = (wy, w, x)
+    # (week-year, week, day) triples given directly: a week beyond the number of weeks the rule reports for that week-year (or below 1) has no date
+    # and must be refused; an accepted triple must report itself back
+    for y in rng.sample(years, min(len(years), 6)) + [rng.randint(cal.min_year + 1, cal.max_year - 1) for _ in range(6)]:
+        if not cal.min_year < y < cal.max_year: continue
+        for name, rule, irregular, m, f in [rules[0]] + rng.sample(rules[1:], 5):
+            try:
+                wk = rule.get_weeks_in_week_year(y, cal)
+            except Exception as e:  # noqa: BLE001
+                ctx.exc(e); continue
+            for w in sorted({1, wk, wk + 1, wk + 2, 52, 53, 54, 55, 0, -1, rng.randint(1, wk)}):
+                dow = IsoDayOfWeek(rng.randint(1, 7))
+                case = {"kind": "triple", "cal": cid, "rule": name, "y": y, "w": w, "dow": dow.value}
+                ctx.ev(); ctx.count("direct_triples"); ctx.key((cid, "triple", irregular, (w > wk) - (w < 1), wk))
+                try:
+                    x = rule.get_local_date(y, w, dow, cal)
+                except (ValueError, OverflowError) as e:
+                    ctx.exc(e)
+                    if 1 <= w <= wk and not (irregular and w in (1, wk)):      # the BCL-style rules have partial first/last weeks: some days of those do not exist
+                        ctx.V("C16:valid-triple-refused", f"{cid} rule {name}: get_local_date({y}, week {w} of {wk}, {dow.name}) raised {e!r}", case, repr(e))
+                    continue
+                except Exception as e:  # noqa: BLE001
+                    ctx.exc(e); ctx.V(f"C16:triple-raised:{exc_key(e)}", f"{cid} rule {name}: get_local_date({y}, {w}, {dow.name}) raised {e!r}", case, repr(e)); continue
+                if not 1 <= w <= wk:
+                    ctx.V("C16:week-outside-week-year-accepted", f"{cid} rule {name}: week-year {y} has {wk} weeks, but get_local_date({y}, week {w}, {dow.name}) returned {x!r} instead of refusing", case, repr(x), wk)
+                    continue
+                try:
+                    got = (rule.get_week_year(x), rule.get_week_of_week_year(x), x.day_of_week)
+                except Exception as e:  # noqa: BLE001
+                    ctx.exc(e); got = repr(e)
+                if got != (y, w, dow) or x.calendar is not cal:
+                    ctx.V("C16:triple-does-not-report-itself", f"{cid} rule {name}: get_local_date({y}, {w}, {dow.name}) = {x!r}, which reports {got}", case, repr(got), (y, w, dow.value))
     ctx.sample({"kind": "rule", "cal": cid, "rule": "min4-first1", "d": ys.start(years[4])})
     # weekday navigation
     for _ in range(150 if ctx.tier == "quick" else 3000):
